@@ -967,7 +967,12 @@ def rest_sum_rule(ctx: Ctx, fe, sites, eroles) -> None:
         ok = bool(defs)
         for d in defs:
             g = next((a for a in ancestors(d) if isinstance(a, ast.If)), None)
-            if isinstance(d.value, ast.Subscript) and src(d.value) == "self.step_sizes[-1]":
+            top_ = nz.norm(ast.parse("self.step_sizes[-1]", mode="eval").body)
+            try:
+                is_top = isinstance(d.value, (ast.Subscript, ast.Name)) and nz.norm(d.value) == top_
+            except Exception:
+                is_top = False
+            if is_top:
                 rr = relation(g.test, nz) if g is not None else None
                 inside = g is not None and d in g.body
                 okd = rr is not None and inside and same_relation(rr, Sym.atom(nxt) - Sym.atom("self.step_sizes[-1]"), ">")
